@@ -54,7 +54,24 @@ class VTime:
         return 1_700_000_000.0 + self.loop.time()
 
 
+_seq = itertools.count()
+
+
+def _fp(addr, n):
+    """Fingerprint presented with the n-th request: per history one of none / shared by all / rotating."""
+    mode = _FP_MODE[0]
+    if mode == "none":
+        return None
+    if mode == "shared":
+        return "sha256:" + "ab" * 32
+    return "sha256:" + format(n, "064x")
+
+
+_FP_MODE = ["none"]
+
+
 def run_history(cfg, events, count_evictions=None):
+    _FP_MODE[0] = ("none", "shared", "rotating")[(len(events) + int(cfg["capacity"])) % 3]
     """events: list of (t, [addr, addr, ...]) with non-decreasing t; addresses at the same t are
     issued concurrently.  Returns list of (t, addr, admitted, response)."""
     from nauyaca.server import middleware as M
@@ -80,7 +97,9 @@ def run_history(cfg, events, count_evictions=None):
             results = {}
 
             async def burst(addrs=addrs):
-                rs = await asyncio.gather(*[rl.process_request("gemini://x/", a, None) for a in addrs])
+                # the allowance belongs to the ADDRESS: a client certificate (none, one shared by several addresses,
+                # a fresh one on every connection) makes no difference
+                rs = await asyncio.gather(*[rl.process_request("gemini://x/", a, _fp(a, next(_seq))) for a in addrs])
                 results["r"] = rs
 
             task = loop.do(lambda: asyncio.ensure_future(burst()))
@@ -117,7 +136,7 @@ def run_history_scheduled(cfg, events):
         loop.do(rl.start)
 
         async def one(idx, t, a):
-            r = await rl.process_request("gemini://x/", a, None)
+            r = await rl.process_request("gemini://x/", a, _fp(a, next(_seq)))
             results[idx] = (t, a, bool(r[0]), r[1])
             order.append(idx)
 
